@@ -6,6 +6,7 @@ import Driver.C16
 import Driver.C17
 import Driver.C13
 import Driver.C03
+import Driver.C06
 
 def main (args : List String) : IO UInt32 := do
   let stdin ← IO.getStdin
@@ -18,4 +19,5 @@ def main (args : List String) : IO UInt32 := do
   | ["c17"] => Driver.lineLoop stdin stdout () Driver.C17.step; return 0
   | ["c13"] => Driver.lineLoop stdin stdout () Driver.C13.step; return 0
   | ["c03"] => Driver.lineLoop stdin stdout (⟨Zix.Hash.new, [], false⟩ : Driver.C03.St) Driver.C03.step; return 0
+  | ["c06"] => Driver.lineLoop stdin stdout (Zix.Avl.Tree.new false) Driver.C06.step; return 0
   | _ => IO.eprintln "usage: zixdriver <component> < script"; return 2
